@@ -82,6 +82,35 @@ def check_tx(case):
             raise Violation('tx/deser-ids', 'deserialised tx reports different identifiers / equality')
         seen_hash[name] = H.dsha(full)
         evals += 6
+    # identifiers of a mutable transaction follow later edits (read ids, edit, read again)
+    cur = dict(base, wit=variants[-1][1], vin=list(base['vin']), vout=list(base['vout']))
+    mt = libx.mk_tx(cur, True)
+    mt.GetTxid(); mt.GetHash(); hash(mt)
+    for ed in case.get('edits', []):
+        k = ed[0]
+        if k == 'locktime':
+            cur['locktime'] = ed[1]; mt.nLockTime = ed[1]
+        elif k == 'version':
+            cur['version'] = ed[1]; mt.nVersion = ed[1]
+        elif k == 'seq':
+            i = ed[1] % nin; h_, n_, s_, q_ = cur['vin'][i]; cur['vin'][i] = (h_, n_, s_, ed[2]); mt.vin[i].nSequence = ed[2]
+        elif k == 'scriptsig':
+            i = ed[1] % nin; h_, n_, s_, q_ = cur['vin'][i]; cur['vin'][i] = (h_, n_, bytes.fromhex(ed[2]), q_)
+            mt.vin[i].scriptSig = CScript(bytes.fromhex(ed[2]))
+        elif k == 'addout':
+            cur['vout'].append((ed[1], b'\x51')); mt.vout.append(CMutableTxOut(ed[1], CScript(b'\x51')))
+        elif k == 'wit':
+            cur['wit'] = variants[ed[1] % len(variants)][1]
+            mt.wit = libx.mk_witness(cur['wit']) if cur['wit'] is not None else libx.mk_witness([])
+        st_, fu_ = W.enc_tx(dict(cur, wit=None)), W.enc_tx(cur)
+        if mt.GetTxid() != H.dsha(st_):
+            raise Violation('tx/txid-stale-after-edit', 'mutable tx: GetTxid() after edit %r is not dSHA256(current stripped serialisation)' % (ed,))
+        if mt.GetHash() != H.dsha(fu_) or mt.serialize() != fu_:
+            raise Violation('tx/wtxid-stale-after-edit', 'mutable tx: GetHash()/serialize() after edit %r do not reflect current fields' % (ed,))
+        fresh = libx.mk_tx(cur, False)
+        if hash(mt) != hash(fu_) or not (mt == fresh) or mt.GetTxid() != fresh.GetTxid():
+            raise Violation('tx/eq-stale-after-edit', 'mutable tx after edit %r disagrees with a fresh immutable of equal fields' % (ed,))
+        evals += 3
     return {'nt': any(W.has_witness(dict(base, wit=[[bytes.fromhex(i) for i in stk] for stk in w])) for _, w in case['wits'])
             and nin >= 2, 'digest': digest(stripped + repr(case['wits']).encode()), 'evals': evals,
             'cls': ['tx', 'nin%d' % min(nin, 3)]}
@@ -154,7 +183,12 @@ def s_tx(draw):
     F[idx][0] = (bytes([b0[0] ^ 1]) + b0[1:]).hex()
     last_only = [[] for _ in range(nin)]
     last_only[-1] = ['']           # a single EMPTY item is still a non-empty stack
-    return {'kind': 'tx', 'tx': t, 'wits': [['A', A], ['B', B], ['A-flipped', F], ['last-only-empty-item', last_only]]}
+    edit = st.one_of(st.tuples(st.just('locktime'), gen.u32), st.tuples(st.just('version'), gen.i32),
+                     st.tuples(st.just('seq'), st.integers(0, 7), gen.u32),
+                     st.tuples(st.just('scriptsig'), st.integers(0, 7), st.binary(max_size=5).map(bytes.hex)),
+                     st.tuples(st.just('addout'), st.integers(0, 10 ** 9)), st.tuples(st.just('wit'), st.integers(0, 6)))
+    return {'kind': 'tx', 'tx': t, 'wits': [['A', A], ['B', B], ['A-flipped', F], ['last-only-empty-item', last_only]],
+            'edits': [list(e) for e in draw(st.lists(edit, min_size=1, max_size=4))]}
 
 
 @st.composite
